@@ -134,7 +134,7 @@ def serialize_partition(pr: PRun, rank: int):
     part, npart = rp.part, rp.npart
     spec = pr.spec
     out = {"rank": rank, "parts": [], "overall": list(part.overall_output_names),
-           "user": sorted(G.input_args(spec, rank)), "problems": []}
+           "user": sorted(G.input_args(spec, rank)), "problems": [], "type_problems": []}
     for pid in part.parts:
         p = part.parts[pid]
         if p.pid != pid:
@@ -145,12 +145,12 @@ def serialize_partition(pr: PRun, rank: int):
             rv = p.name_to_recv_node[name]
             ti = tag_index(spec, rv.comm_tag)
             it = q.name_to_recv_node[name].comm_tag if q is not None else None
-            recvs.append([name, rv.src_rank, ti, it])
+            recvs.append([name, rv.src_rank, ti, it, list(rv.shape), str(rv.dtype)])
         for name in sorted(p.name_to_send_nodes):
             for k, sd in enumerate(p.name_to_send_nodes[name]):
                 ti = tag_index(spec, sd.comm_tag)
                 it = q.name_to_send_nodes[name][k].comm_tag if q is not None else None
-                sends.append([name, sd.dest_rank, ti, it])
+                sends.append([name, sd.dest_rank, ti, it, list(sd.data.shape), str(sd.data.dtype)])
         # expressions of this part: placeholders read, communication nodes inside
         reads, commnodes, missing_exprs = set(), 0, []
         for on in sorted(p.output_names):
@@ -167,6 +167,25 @@ def serialize_partition(pr: PRun, rank: int):
                 for nd in walk_arrays(sd.data):
                     if isinstance(nd, (DistributedRecv, DistributedSendRefHolder)):
                         commnodes += 1
+        # every part-input placeholder must be typed exactly like the array it stands for
+        recv_of = {nm: rv for q in part.parts.values() for nm, rv in q.name_to_recv_node.items()}
+        exprs = [part.name_to_output[on] for on in sorted(p.output_names) if on in part.name_to_output]
+        exprs += [sd.data for sds in p.name_to_send_nodes.values() for sd in sds]
+        seen_ph = {}
+        for e in exprs:
+            for nd in walk_arrays(e):
+                if isinstance(nd, Placeholder):
+                    seen_ph[nd.name] = nd
+        for nm in sorted(p.partition_input_names):
+            ph = seen_ph.get(nm)
+            prod = recv_of.get(nm, part.name_to_output.get(nm))
+            if ph is None or prod is None:
+                continue
+            for fld in ("shape", "dtype", "axes", "tags"):
+                if getattr(ph, fld) != getattr(prod, fld):
+                    out["type_problems"].append(
+                        f"part-input-type-{fld}:rank{rank}:part{pid}:{nm}:"
+                        f"{str(getattr(ph, fld))[:60]}!={str(getattr(prod, fld))[:60]}")
         out["parts"].append({
             "pid": pid, "needs": sorted(p.needed_pids), "user": sorted(p.user_input_names),
             "pin": sorted(p.partition_input_names), "out": sorted(p.output_names),
@@ -239,6 +258,7 @@ def py_check_clauses(psers):
         if len(set(pids)) != len(pids):
             bad.append(f"pids-unique:rank{r}")
         bad += [f"partition-record:rank{r}:{x}" for x in ps["problems"]]
+        bad += list(ps.get("type_problems", []))
         # clause 6 (local): needs acyclic; compute ancestors
         anc: dict = {}
 
@@ -310,6 +330,14 @@ def py_check_clauses(psers):
                 sends.setdefault((ps["rank"], s[1], s[2]), []).append((ps["rank"], p["pid"]))
             for rv in p["recvs"]:
                 recvs.setdefault((rv[1], ps["rank"], rv[2]), []).append((ps["rank"], p["pid"]))
+    stype = {(ps["rank"], s_[1], s_[2]): (s_[4], s_[5]) for ps in psers for p in ps["parts"] for s_ in p["sends"]
+             if len(s_) > 5}
+    for ps in psers:
+        for p in ps["parts"]:
+            for rv in p["recvs"]:
+                cid = (rv[1], ps["rank"], rv[2])
+                if len(rv) > 5 and cid in stype and stype[cid] != (rv[4], rv[5]):
+                    bad.append(f"recv-matches-send-type:{cid}:send={stype[cid]}:recv={(rv[4], rv[5])}")
     for cid, l in sends.items():
         if len(l) != 1:
             bad.append(f"send-unique:{cid}")
@@ -398,26 +426,33 @@ class PartEvalError(Exception):
     pass
 
 
+class PartInputMismatch(Exception):
+    """a value bound to a part input differs in dtype / shape from the declared placeholder"""
+
+
 def eval_array(expr, env, memo):
-    """small independent NumPy evaluator over the node classes parts are made of"""
-    from pytato.array import DataWrapper, IndexLambda, Placeholder
-    from .ilinterp import eval_index_lambda
-    k = id(expr)
-    if k in memo:
-        return memo[k]
-    if isinstance(expr, Placeholder):
-        if expr.name not in env:
-            raise PartEvalError(f"placeholder {expr.name!r} not among the inputs")
-        v = np.asarray(env[expr.name])
-    elif isinstance(expr, DataWrapper):
-        v = np.asarray(expr.data)
-    elif isinstance(expr, IndexLambda):
-        binds = {nm: eval_array(b, env, memo) for nm, b in expr.bindings.items()}
-        v, _ = eval_index_lambda(expr, binds)
-    else:
-        raise PartEvalError(f"{type(expr).__name__} inside a part")
-    memo[k] = v
-    return v
+    """independent NumPy evaluation of a part expression (harness/refeval: dispatch on node class,
+    NumPy function of the same meaning; never pytato's lowering).  `memo` holds the evaluator."""
+    from .refeval import RefEval, RefEvalError
+    ev = memo.get("ev")
+    if ev is None:
+        ev = memo["ev"] = RefEval(env)
+    try:
+        return np.asarray(ev(expr))
+    except RefEvalError as e:
+        raise PartEvalError(str(e)) from e
+
+
+def declared_inputs(partition, part):
+    """{placeholder name: (shape, dtype)} as declared in the expressions of the part's outputs"""
+    from pytato.array import Placeholder
+    out = {}
+    for nm in part.output_names:
+        if nm in partition.name_to_output:
+            for nd in walk_arrays(partition.name_to_output[nm]):
+                if isinstance(nd, Placeholder):
+                    out[nd.name] = (tuple(nd.shape), np.dtype(nd.dtype))
+    return out
 
 
 def executor_state():
@@ -441,8 +476,16 @@ def make_programs(world, rank, partition):
     """pid -> callable(queue, allocator=None, **inputs) -> (evt, {name: array})"""
     prgs = {}
     for pid, part in partition.parts.items():
-        def prg(queue, allocator=None, _pid=pid, _part=part, **inputs):
+        declared = declared_inputs(partition, part)
+
+        def prg(queue, allocator=None, _pid=pid, _part=part, _declared=declared, **inputs):
             world.log("exec", rank, _pid, tuple(sorted(inputs)), executor_state())
+            # the generated kernel would read the buffer AS the declared type: honour it
+            for nm, (shp, dt) in sorted(_declared.items()):
+                if nm in inputs:
+                    v = np.asarray(inputs[nm])
+                    if v.dtype != dt or tuple(v.shape) != shp:
+                        raise PartInputMismatch(f"part {_pid} input {nm}: declared {dt}{shp}, bound {v.dtype}{v.shape}")
             memo: dict = {}
             res = {}
             for nm in sorted(_part.output_names):
@@ -551,7 +594,10 @@ def check_exec(run: ERun, ref) -> str | None:
             return f"output-names:rank{r}:{sorted(got)}!={sorted(want)}"
         for nm in sorted(want):
             g = np.asarray(got[nm])
-            if g.shape != want[nm].shape or not np.array_equal(g, want[nm]):
+            if g.dtype != want[nm].dtype:
+                return f"wrong-dtype:rank{r}:{nm}:{g.dtype}!={want[nm].dtype}"
+            if g.shape != want[nm].shape or not (np.array_equal(g, want[nm])
+                                                 or (g.dtype.kind in "fc" and np.allclose(g, want[nm], rtol=1e-5))):
                 return f"wrong-value:rank{r}:{nm}"
     return None
 
@@ -742,6 +788,8 @@ def lean_program(spec):
                 nodes.append(f"({i} op {st} {can[nd['a']]} {can[nd['b']]})")
             elif op in ("addc", "mulc"):
                 nodes.append(f"({i} op {st} {can[nd['a']]})")
+            elif op in ("kind", "flat"):
+                nodes.append(f"({i} op {st} {' '.join(str(can[c]) for c in nd['args'])})")
             else:
                 raise ValueError(op)
         outs = " ".join(f"({tab[nm]} {can[o]})" for nm, o in rk["outputs"])
@@ -765,7 +813,8 @@ def real_partition_canonical(pr: PRun, spec, tab):
         send_data = {(nd["dst"], nd["tag"]): can[nd["data"]] for i, nd in enumerate(rk["nodes"]) if nd["op"] == "send"
                      and i in set(G.live_nodes(rk))}
         input_node = {nd["name"]: can[i] for i, nd in enumerate(rk["nodes"]) if nd["op"] == "input"}
-        data_node = {hashlib.sha256(np.array(nd["values"], dtype=np.int64).tobytes()).hexdigest(): can[i]
+        data_node = {hashlib.sha256(np.ascontiguousarray(
+                         G.cast_small(nd["values"], nd.get("dtype", "int64"))).tobytes()).hexdigest(): can[i]
                      for i, nd in enumerate(rk["nodes"]) if nd["op"] == "data"}
         overall = set(part.overall_output_names)
         for p in part.parts.values():
@@ -789,8 +838,11 @@ def real_partition_canonical(pr: PRun, spec, tab):
             elif isinstance(expr, Placeholder) and expr.name in name_map:
                 name_map[nm] = name_map[expr.name]      # a holder whose pass-through is a receive
             elif isinstance(expr, DataWrapper):
+                ids = [t.k for t in expr.tags if type(t).__name__ == "CommNodeId"]
                 dg = hashlib.sha256(np.ascontiguousarray(expr.data).tobytes()).hexdigest()
-                if dg in data_node:
+                if len(ids) == 1:
+                    name_map[nm] = NAME_BASE + can[ids[0]]
+                elif dg in data_node:
                     name_map[nm] = NAME_BASE + data_node[dg]
             else:
                 ids = [t.k for t in expr.tags if type(t).__name__ == "CommNodeId"]
@@ -808,6 +860,17 @@ def real_partition_canonical(pr: PRun, spec, tab):
         parts = []
         for pid in sorted(part.parts):
             p = part.parts[pid]
+            decl = declared_inputs(part, p)
+            for nm in sorted(p.partition_input_names):
+                c = name_map.get(nm)
+                if c is None or nm not in decl:
+                    continue
+                a = c - NAME_BASE
+                want_dt = np.dtype(G.spec_dtype(rk["nodes"], a))
+                want_shape = tuple(np.shape(G._dummy_value(rk["nodes"], a, spec["n"])))
+                if decl[nm] != (want_shape, want_dt):
+                    problems.append(f"rank{r}:part{pid}:input-type-vs-program:{nm}:declared={decl[nm][1]}{decl[nm][0]}"
+                                    f":program-node-{a}={want_dt}{want_shape}")
             parts.append({
                 "pid": pid, "needs": sorted(p.needed_pids),
                 "inputs": sorted(cn(n, "input") for n in p.user_input_names | p.partition_input_names),
